@@ -167,6 +167,43 @@ class Integration:
             return Reply(r.status_code, media(r.headers.get('Content-Type')), r.get_data(), raw_content_type=r.headers.get('Content-Type'))
         return self._post_aiohttp(path, b'', {}, method='GET')
 
+    def post_then_cancel(self, body, content_type, path=None, steps=3):
+        """aiohttp only: the request handler is cancelled (client went away / a timeout middleware fired) after `steps` turns of the loop,
+        i.e. while the dispatch is suspended in a method -> 'cancelled' | 'finished' | 'raised: ...'"""
+        self.ready()
+        path = path if path is not None else ((self.mount or '') + (self.path or '') + self.endpoint or '/')
+        app = self.outer if self.mount else self.rpc.app
+        headers = {'Content-Type': content_type, 'Content-Length': str(len(body))}
+
+        async def go():
+            loop = asyncio.get_running_loop()
+            protocol = mock.Mock(_reading_paused=False)
+            payload = streams.StreamReader(protocol, 2 ** 16, loop=loop)
+            payload.feed_data(body)
+            payload.feed_eof()
+            req = make_mocked_request('POST', path, headers=headers, payload=payload, app=app)
+            task = loop.create_task(app._handle(req))
+            del req
+            for _ in range(steps):
+                await asyncio.sleep(0)
+            if task.done():
+                task.result()
+                return 'finished'
+            task.cancel()
+            try:
+                await task
+            except asyncio.CancelledError:
+                return 'cancelled'
+            return 'finished'
+        loop = VLoop()
+        try:
+            try:
+                return loop.run(go())
+            except Exception as e:   # noqa
+                return 'raised: %s: %s' % (type(e).__name__, e)
+        finally:
+            loop.close()
+
     def _post_aiohttp(self, path, body, headers, method='POST'):
         """the request is handled by the real aiohttp application and the response is WRITTEN through aiohttp's own
         prepare() / write_eof() into a recording payload writer: the reply is what reached the writer (a response object
